@@ -1,7 +1,10 @@
 package saslauthenticate
 
 import (
+	"bytes"
 	"encoding/binary"
+	"errors"
+	"fmt"
 	"io"
 
 	"github.com/segmentio/kafka-go/protocol"
@@ -42,13 +45,21 @@ func (r *Request) readResp(read io.Reader) (protocol.Message, error) {
 		return nil, err
 	}
 	respLen := int32(binary.BigEndian.Uint32(lenBuf[:]))
-	data := make([]byte, respLen)
+	if respLen < 0 {
+		return nil, fmt.Errorf("invalid size of SASL authentication response: %d", respLen)
+	}
 
-	if _, err := io.ReadFull(read, data[:]); err != nil {
+	// The size comes from the network: read into a buffer that grows with the
+	// bytes actually received instead of allocating what was announced.
+	data := new(bytes.Buffer)
+	if n, err := io.CopyN(data, read, int64(respLen)); err != nil {
+		if errors.Is(err, io.EOF) && n > 0 {
+			err = io.ErrUnexpectedEOF
+		}
 		return nil, err
 	}
 	return &Response{
-		AuthBytes: data,
+		AuthBytes: data.Bytes(),
 	}, nil
 }
 
